@@ -24,6 +24,11 @@ Only rewrites whose result is the same program are made, each under a stated con
   body`` (``it`` used nowhere else, ``S`` a name)  ->  ``for v in E: body``: the iterator
   protocol written out.
 
+* a nested function ``def f(p, q)`` that its enclosing function uses exactly once, calling
+  it as ``f(a, b)`` with plain names that the enclosing function binds only once (its
+  parameters, never re-assigned)  ->  the closure ``def f()`` reading ``a`` and ``b``
+  directly: the call binds ``p`` to the one value ``a`` ever has.
+
 Assignment expressions elsewhere (second operand of ``and``/``or``, comprehensions,
 ``while`` tests, ``assert``) stay as they are and are interpreted by the path engine.
 """
@@ -436,6 +441,61 @@ def _iterator_loop(first, loop, uses):
     return ast.copy_location(fused, loop)
 
 
+def _close_over_arguments(tree) -> int:
+    count = 0
+    for outer in ast.walk(tree):
+        if not isinstance(outer, (ast.FunctionDef, ast.AsyncFunctionDef)):
+            continue
+        nested = [n for n in outer.body if isinstance(n, (ast.FunctionDef,
+                                                          ast.AsyncFunctionDef))]
+        if not nested:
+            continue
+        oargs = outer.args
+        oparams = {a.arg for a in oargs.posonlyargs + oargs.args + oargs.kwonlyargs}
+        stored = {n.id for n in ast.walk(outer) if isinstance(n, ast.Name)
+                  and isinstance(n.ctx, (ast.Store, ast.Del))}
+        for inner in nested:
+            inside = {id(n) for n in ast.walk(inner)}
+            uses = [n for n in ast.walk(outer) if isinstance(n, ast.Name)
+                    and n.id == inner.name and id(n) not in inside]
+            calls = [n for n in ast.walk(outer) if isinstance(n, ast.Call)
+                     and n.func in uses and id(n) not in inside]
+            iargs = inner.args
+            if len(uses) != 1 or len(calls) != 1 or iargs.vararg or iargs.kwarg or \
+                    iargs.kwonlyargs or iargs.posonlyargs or iargs.defaults or \
+                    inner.decorator_list and any(
+                        not (isinstance(d, ast.Call) and ast.unparse(d.func).split('.')[-1]
+                             == 'wraps') for d in inner.decorator_list):
+                continue
+            call = calls[0]
+            params = [a.arg for a in iargs.args]
+            if not params or call.keywords or len(call.args) != len(params) or not all(
+                    isinstance(a, ast.Name) and a.id in oparams and a.id not in stored
+                    for a in call.args):
+                continue
+            given = [a.id for a in call.args]
+            inner_names = {n.id for n in ast.walk(inner) if isinstance(n, ast.Name)}
+            inner_stored = {n.id for n in ast.walk(inner) if isinstance(n, ast.Name)
+                            and isinstance(n.ctx, (ast.Store, ast.Del))}
+            if set(params) & inner_stored or len(set(given)) != len(given):
+                continue
+            # the argument name must be free to use inside: not a different local there
+            if any(g != p and g in inner_names for g, p in zip(given, params)):
+                continue
+            if any(isinstance(n, (ast.FunctionDef, ast.AsyncFunctionDef, ast.Lambda,
+                                  ast.ClassDef)) and n is not inner
+                   for n in ast.walk(inner)):
+                continue
+            rename = dict(zip(params, given))
+            for node in ast.walk(inner):
+                if isinstance(node, ast.Name) and node.id in rename:
+                    node.id = rename[node.id]
+            iargs.args = []
+            call.args = []
+            count += 1
+    return count
+
+
 def desugar(tree):
     """normalise ``tree`` in place; returns the number of rewrites"""
     count = 0
@@ -445,6 +505,7 @@ def desugar(tree):
     count += mapper.count
     count += _fuse_generator_loops(tree)
     count += _fuse_iterator_loops(tree)
+    count += _close_over_arguments(tree)
     for node in list(ast.walk(tree)):
         if isinstance(node, ast.ClassDef):
             continue
